@@ -10,7 +10,7 @@ ROOT = os.path.dirname(os.path.dirname(os.path.abspath(__file__)))
 STATIC_TRUSTED = [
     "A1 Python semantics as encoded by pyvc (evaluation order, operator "
     "protocol incl. reflected methods, isinstance over the numbers tower, MRO "
-    "lookup, type.__call__ = __new__ then __init__, flat class hierarchy)",
+    "lookup, type.__call__ = __new__ then __init__, flat class hierarchy; references held by the pre-state and by arguments denote objects that exist before the call, so a newly created object is a different object - used syntactically to simplify heap reads over writes, and asserted)",
     "A2 assumed contracts on decimalfp / fractions / datetime / math (exact "
     "arithmetic, exact conversions, Decimal(x, n) and Decimal.quantize round "
     "per round_rel); the decimalfp C extension is not trusted for verdicts",
